@@ -165,6 +165,17 @@ def plain_upload(u):
     tail = u.file.read(50)
     if big != data or b''.join(pieces) != data or tail != data[max(0, len(data) - 3):]:
         return ('file', u.raw_filename, ct, big, 'sized reads leave the part')
+    # relative seeks that overshoot the start of the part stop at its start (the file object is a window on the part)
+    for rel in ((0, 0, -3, 1), (1, 0, -10, 1), (0, 2, -len(data) - 5, 2), (0, 0, -len(data) - 1, 2), (2, 0, -2, 1)):
+        u.file.seek(rel[0], rel[1])
+        u.file.seek(rel[2], rel[3])
+        pos = u.file.tell()
+        tail = u.file.read()
+        if pos < 0 or pos > len(data) or tail != data[pos:]:
+            return ('file', u.raw_filename, ct, tail, f'seek{rel[2:]} after seek{rel[:2]} leaves the part (tell() = {pos})')
+    u.file.seek(-2, 2)
+    if u.file.read() != data[-2:] and len(data) >= 2:
+        return ('file', u.raw_filename, ct, data, 'seek(-2, SEEK_END) does not give the last two bytes')
     # read(-1) / read(None): everything that is left of the part, nothing of what follows it
     u.file.seek(0)
     all_neg = u.file.read(-1)
